@@ -136,6 +136,7 @@ type CheckReport struct {
 	Known       []string
 	NQueries    int
 	Broken      string // build broken etc.
+	Cross       map[string]int // thorough tier: second-opinion outcomes per path query
 }
 
 // RunCheck generates and discharges every obligation of one property.
@@ -344,11 +345,11 @@ func RunCheck(opt *Options) (*CheckReport, error) {
 		return nil, err
 	}
 	defer os.RemoveAll(work)
-	timeout := 10000
+	timeout := 25000
 	if opt.Tier == "thorough" {
-		timeout = 60000
+		timeout = 90000
 	}
-	cfg := &SolverCfg{WorkDir: work, TimeoutMs: timeout, Seed: opt.Seed, Jobs: opt.Jobs}
+	cfg := &SolverCfg{WorkDir: work, TimeoutMs: timeout, Seed: opt.Seed, Jobs: opt.Jobs, CrossCheck: opt.Tier == "thorough"}
 	results := SolveAll(context.Background(), cfg, queries)
 	rep.NQueries = len(queries)
 	// aggregate
@@ -357,6 +358,12 @@ func RunCheck(opt *Options) (*CheckReport, error) {
 	for i, q := range queries {
 		r := results[i]
 		rep.SolverMs += r.Millis
+		if r.Cross != "" {
+			if rep.Cross == nil {
+				rep.Cross = map[string]int{}
+			}
+			rep.Cross[r.Cross]++
+		}
 		o := byName[q.Name]
 		if o == nil {
 			o = &Obligation{Name: q.Name, Function: qFunc[q], Status: "discharged", Canary: q.Expect == "fail", Vacuity: q.Expect == "sat", Pos: q.Pos}
@@ -386,6 +393,9 @@ func RunCheck(opt *Options) (*CheckReport, error) {
 			if r.Status != "unsat" && o.Status != "failed" {
 				o.Status = "failed"
 				o.Detail = fmt.Sprintf("path %d at %s: solver says %s", q.Path, q.Pos, r.Status)
+				if r.Cross == "disagree" {
+					o.Detail += " (solver disagreement, see solver_output)"
+				}
 				o.Model = r.Model
 				o.FailQuery, o.FailRes = q, r
 				o.Attempts = r.Attempt
